@@ -135,6 +135,28 @@ pub fn trivia_twin(src: &str, d: &Dumper, r: &mut Rng, stats: &mut Out) -> Strin
     rebuild(src, d, &mut gapf, &mut id)
 }
 
+/// deterministic twins: an ordinary comment is put between every existing comment and the token that follows it
+/// (`same_line`: `… --[[ c ]] token`; otherwise a comment line of its own) — e.g. between a filter comment and its code
+pub fn comment_after_comments_twin(src: &str, d: &Dumper, same_line: bool, stats: &mut Out) -> String {
+    let mut id = |_: usize, s: &str| s.to_owned();
+    let mut gapf = |_: usize, g: &str| -> String {
+        if !g.contains("--") {
+            return g.to_owned();
+        }
+        stats.bump("comment_inserted_after_comment");
+        if same_line {
+            format!("{g}--[[ c ]] ")
+        } else if g.ends_with('\n') || g.trim_end_matches([' ', '\t']).ends_with('\n') {
+            // keep the indentation that follows the last line break in front of the token
+            let cut = g.rfind('\n').map(|i| i + 1).unwrap_or(g.len());
+            format!("{}-- c\n{}", &g[..cut], &g[cut..])
+        } else {
+            format!("{g}--[[ c ]] ")
+        }
+    };
+    rebuild(src, d, &mut gapf, &mut id)
+}
+
 /// token indices in variable positions (declarations, name expressions / prefixes, the root of a function name)
 fn variable_tokens(sx: &Sx, acc: &mut Vec<usize>) {
     fn tok_idx(t: &Sx) -> Option<usize> {
@@ -401,9 +423,14 @@ pub fn run(args: &Args, out: &mut Out, kind: &str) {
     const PROLOGUE: &str = "local function _verif_prologue(vx, vy)\n  if type(vx == \"string\") then end\n  local _o = oldvalue\n  print(oldvalue, vx)\n  oldfn(vx, vy)\n  depr_param(nil, vx)\n  depr_param(vx)\n  _G.allowed_name = vx\n  _G.other_name = vy\n  if vx == 0/0 then end\n  return lib.oldfield, oldvalue\nend\n";
     let corpus = format!("/verif/corpus/{}", if kind == "c13r" { "c13" } else { kind });
     for (origin, src) in programs(args, out, &mut rng, &corpus) {
+        // filter comments stay where they are (the trivia twin only *adds* blanks and ordinary comments, also between
+        // a filter comment and the code it precedes); the renaming twin leaves such files alone
         if src.contains("selene:") {
-            out.bump("skipped_has_filter_comments");
-            continue;
+            if kind == "c14" {
+                out.bump("skipped_has_filter_comments");
+                continue;
+            }
+            out.bump("program_with_filter_comments");
         }
         let src = if kind == "c13" {
             format!("{PROLOGUE}{src}")
@@ -429,9 +456,14 @@ pub fn run(args: &Args, out: &mut Out, kind: &str) {
                 continue;
             }
         };
-        let reps = if kind == "c13" || kind == "c13r" { 2 } else if origin.starts_with("corpus") { 6 } else { 2 };
-        for _ in 0..reps {
-            let (twin_src, back) = if kind == "c13" || kind == "c13r" {
+        let reps = if origin.starts_with("corpus") { 12 } else { 2 };
+        for rep_i in 0..reps + 2 {
+            if rep_i >= reps && !((kind == "c13" || kind == "c13r") && src.contains("--")) {
+                continue;
+            }
+            let (twin_src, back) = if rep_i >= reps {
+                (comment_after_comments_twin(&src, &d, rep_i == reps, out), HashMap::new())
+            } else if kind == "c13" || kind == "c13r" {
                 (trivia_twin(&src, &d, &mut rng, out), HashMap::new())
             } else {
                 match rename_twin(&src, &ast, &d, &chunk, &std51, &mut rng, out) {
